@@ -12,6 +12,8 @@ import traceback
 
 
 def ncpu():
+    if os.environ.get("VERIF_WORKERS"):
+        return max(1, int(os.environ["VERIF_WORKERS"]))
     try:
         return len(os.sched_getaffinity(0))
     except Exception:
